@@ -84,7 +84,7 @@ func readKept(wl *spg.WordList) ([]string, error) {
 		return nil, fmt.Errorf("Size() = %d", n)
 	}
 	N := int(float64(n)*(math.Log(float64(n))+30)) + 1
-	tp := &tape.Tape{TailKey: ev.Mix64(uint64(n), 0x10ad) | 1, Cap: 1 << 40}
+	tp := &tape.Tape{TailKey: ev.Mix64(uint64(n), 0x10ad) | 1, Cap: 1 << 40, MaxReads: 1 << 40}
 	oldR, oldO := rand.Reader, spg.VerifDrawObserver
 	rand.Reader, spg.VerifDrawObserver = tp, nil
 	defer func() { rand.Reader, spg.VerifDrawObserver = oldR, oldO }()
